@@ -1,6 +1,7 @@
 // C15_api.cpp -- yaclib::Mutex (C14, real awaiters) and yaclib::SharedMutex (C15) driven by REAL coroutines on stub executors.
 // Units of the sequentialised schedule: "start coroutine i" (runs until it parks on the mutex or finishes); a parked coroutine is
 // resumed by the releasing coroutine through the real awaiters / executors.  Every critical section contains a schedule point.
+#include <yaclib/async/contract.hpp>
 #include <yaclib/coro/await.hpp>
 #include <yaclib/coro/future.hpp>
 #include <yaclib/coro/mutex.hpp>
@@ -18,7 +19,11 @@ using namespace yaclib;
 static vp::StubExec g_a, g_b;
 static Mutex<OPT_A, OPT_B> g_m;                 // <Batching, FIFO>
 static SharedMutex<OPT_A, OPT_B> g_sm;          // <FIFO, ReadersFIFO>
-static unsigned g_w_in, g_r_in, g_bad_ww, g_bad_rw, g_done, g_cs_exec[3], g_finals;
+static unsigned g_w_in, g_r_in, g_bad_ww, g_bad_rw, g_done, g_cs_exec[4], g_finals;
+alignas(16) static unsigned char g_hf[sizeof(Future<>)], g_hp[sizeof(Promise<>)];   // a holder parks on this future INSIDE its critical section
+#define HF (*reinterpret_cast<Future<>*>(g_hf))
+#define HP (*reinterpret_cast<Promise<>*>(g_hp))
+static unsigned g_released;
 static unsigned g_plain, g_plain_bad;           // a plain variable written in one critical section and read in the next
 
 static void WriterCS(unsigned id) {
@@ -51,11 +56,22 @@ static Future<> Worker(unsigned id) {
   else if constexpr (Form == 11) { auto g = co_await g_sm.Guard(); WriterCS(id); }
   else if constexpr (Form == 12) { co_await g_sm.LockShared(); ReaderCS(id); g_sm.UnlockHereShared(); }
   else if constexpr (Form == 13) { auto g = co_await g_sm.GuardShared(); ReaderCS(id); }
+  else if constexpr (Form == 20) { co_await g_sm.Lock(); ++g_w_in; co_await std::move(HF); if (g_r_in != 0 || g_w_in != 1) g_bad_rw = 1; --g_w_in; g_sm.UnlockHere(); }        // writer holding across a suspension
+  else if constexpr (Form == 21) { co_await g_sm.LockShared(); ++g_r_in; co_await std::move(HF); if (g_w_in != 0) g_bad_rw = 1; --g_r_in; g_sm.UnlockHereShared(); }   // reader holding across a suspension
+  else if constexpr (Form == 22) { co_await g_m.Lock(); ++g_w_in; co_await std::move(HF); if (g_w_in != 1) g_bad_ww = 1; --g_w_in; co_await g_m.Unlock(); }
   ++g_done;
   co_return {};
 }
 struct Fin { void operator()(Result<>&&) noexcept { ++g_finals; } };
-extern "C" void c15_prologue(unsigned deferred) { g_a.id = 1; g_b.id = 2; g_a.deferred = g_b.deferred = deferred != 0; }
+extern "C" void c15_prologue(unsigned deferred) {
+  g_a.id = 1; g_b.id = 2; g_a.deferred = g_b.deferred = deferred != 0;
+  auto [f, p] = MakeContract<>();
+  new (g_hf) Future<>{std::move(f)}; new (g_hp) Promise<>{std::move(p)};
+}
+extern "C" void c15_release() { g_released = 1; std::move(HP).Set(); }   // lets the parked holder finish its critical section
+extern "C" void c15_start_w_hold_3() { Worker<20>(3).DetachInline(Fin{}); }
+extern "C" void c15_start_r_hold_3() { Worker<21>(3).DetachInline(Fin{}); }
+extern "C" void c15_start_m_hold_3() { Worker<22>(3).DetachInline(Fin{}); }
 #define START(name, form, id) extern "C" void c15_start_##name##_##id() { Worker<form>(id).DetachInline(Fin{}); }
 #define START3(name, form) START(name, form, 0) START(name, form, 1) START(name, form, 2)
 START3(lock_unlock, 0) START3(guard, 1) START3(lock_unlockhere, 2) START3(lock_unlockon, 3) START3(guardsticky, 4)
@@ -64,6 +80,7 @@ extern "C" void c15_try_mutex() { if (g_m.TryLock()) { if (g_w_in != 0) g_bad_ww
 extern "C" void c15_try_shared_w() { if (g_sm.TryLock()) { if (g_w_in != 0) g_bad_ww = 1; if (g_r_in != 0) g_bad_rw = 1; ++g_w_in; vp_sync_point(); --g_w_in; g_sm.UnlockHere(); } }
 extern "C" void c15_try_shared_r() { if (g_sm.TryLockShared()) { if (g_w_in != 0) g_bad_rw = 1; ++g_r_in; vp_sync_point(); --g_r_in; g_sm.UnlockHereShared(); } }
 extern "C" void c15_epilogue(unsigned workers, unsigned shared) {
+  if (!g_released) { std::move(HF).Detach(); HP.~Promise(); }   // the hold contract is not part of this scenario
   for (int i = 0; i < 6; ++i) { g_a.Drain(); g_b.Drain(); }
   vp_assert(g_a.n == 0 && g_b.n == 0, "VP-BOUND: work left after the drain bound");
   vp_assert(g_bad_ww == 0, "C14/C15 two exclusive holders inside the critical section at once");
